@@ -16,7 +16,8 @@ TECHNIQUE = ("property-based testing (Hypothesis) of the real Connection v5 read
              "for small fixed streams")
 RULE = ("feed: 1-6 whole v5 frames (body 0..300 bytes, medium bodies that make two frames fill a segment exactly / by one "
         "byte too much, bodies putting the frame at 1x/2x/3x 131071 +-2 bytes and up to 4 x 128 KiB; random, repeating, zero "
-        "or header-look-alike content) are packed/split into segments by spec.segment (packing tape; with compression "
+        "or header-look-alike content; one message in five is a server-pushed EVENT on stream -1 decoded by the real decoder and "
+        "observed at push watchers) are packed/split into segments by spec.segment (packing tape; with compression "
         "negotiated a tape of the sender's compressed/uncompressed choice per segment, incompressible payloads always left "
         "uncompressed) and fed to a socket-less Connection that went through the real OPTIONS/SUPPORTED/STARTUP/READY exchange "
         "(or _handle_startup_response directly), cut by construction at segment start / inside the segment header / header end "
@@ -34,7 +35,7 @@ ASSUMPTIONS = [
     "the socket is replaced by _iobuf.write(chunk); process_io_buffer() as in every reactor's handle_read; reading stops once the connection closed itself",
     "messages are observed where Connection.process_msg is entered (subclass wrapper) and at recording decoders/callbacks registered in Connection._requests",
     "a sender puts only whole frames into self-contained segments and splits only frames larger than 131071 bytes (what the protocol text prescribes and Cassandra does)",
-    "with a flipped bit, 'delivered' means handed to process_msg while the connection is still alive, or received by a handler; frames of later segments of the same read that the already defunct connection still walks through reach no request handler (all were errored) and are only counted (class obs:frames-processed-after-checksum-failure)",
+    "with a flipped bit, once the connection is defunct nothing more may enter process_msg or reach a handler / push watcher, including frames of later intact segments of the same read; handlers being failed with ConnectionShutdown is expected",
     "promptness is not part of the statement: a complete message that stays in the frame buffer until a later read is only counted (class obs:complete-message-deferred-to-a-later-read)",
 ]
 LEVEL_TEXT = "generated search; exhaustive over all single-bit flips of the three stated small streams only"
@@ -62,10 +63,23 @@ def _big_len():
     return st.one_of(st.sampled_from(around), st.sampled_from(around), st.integers(131000, 4 * 131072 - 9))
 
 
+def _event_desc():
+    addr = st.one_of(st.binary(min_size=4, max_size=4), st.binary(min_size=16, max_size=16)).map(lambda b: b.hex())
+    return st.one_of(
+        st.fixed_dictionaries({"type": st.just("STATUS_CHANGE"), "change": st.sampled_from(["UP", "DOWN"]),
+                               "addr": addr, "port": st.sampled_from([0, 9042])}),
+        st.fixed_dictionaries({"type": st.just("TOPOLOGY_CHANGE"), "change": st.sampled_from(["NEW_NODE", "REMOVED_NODE"]),
+                               "addr": addr, "port": st.sampled_from([0, 9042])}),
+        st.fixed_dictionaries({"type": st.just("SCHEMA_CHANGE"), "change": st.sampled_from(["CREATED", "DROPPED"]),
+                               "keyspace": st.sampled_from(["ks", "k2"]), "table": st.sampled_from(["", "t"])}))
+
+
 def _msg(stream, lens):
-    return st.fixed_dictionaries({
+    data = st.fixed_dictionaries({
         "stream": st.just(stream), "op": st.sampled_from(K.RESPONSE_OPCODES), "flags": st.sampled_from([0, 0, 2, 4, 8]),
         "len": lens, "kind": st.sampled_from(["rand", "rep", "zero", "hdr"]), "seed": st.integers(0, 999)})
+    event = st.fixed_dictionaries({"event": _event_desc()})     # server push: stream -1, real decoder, watcher
+    return st.one_of(data, data, data, data, event)
 
 
 def _cut_items():
@@ -130,7 +144,10 @@ def _frames(case):
     v = case["version"]
     out = []
     for m in case["msgs"]:
-        out.append(K.frame(v, m["flags"], m["stream"], m["op"], K.body_bytes(m["kind"], m["len"], m["seed"], v)))
+        if "event" in m:
+            out.append(K.frame(v, 0, -1, K.OP_EVENT, K.event_body(m["event"], v)[0]))
+        else:
+            out.append(K.frame(v, m["flags"], m["stream"], m["op"], K.body_bytes(m["kind"], m["len"], m["seed"], v)))
     return out
 
 
@@ -250,6 +267,8 @@ def interpret_feed(case, ctx):
     seen = []            # at process_msg entry: (version, flags, stream, opcode, body)
     seen_live = []       # ... and whether the connection was still alive (not defunct) at that moment
     handled = []         # at the handlers
+    events = []          # at the push watchers: (event type, normalised args)
+    post_defunct = []    # responses / events handed over although the connection was already defunct
     pos = [0]
     fed_at = []
 
@@ -289,12 +308,27 @@ def interpret_feed(case, ctx):
             def cb(response):
                 if isinstance(response, tuple) and response and response[0] == "decoded":
                     handled.append((i,) + response[1:])
+                    if conn.is_defunct:
+                        post_defunct.append("response on stream %d" % response[2])
                 else:
                     handled.append((i, "error", type(response).__name__))
             return cb
 
+        def make_watcher(etype):
+            def w(args):
+                try:
+                    events.append((etype, K.norm_event(args)))
+                    if conn.is_defunct:
+                        post_defunct.append("event %s" % etype)
+                except Exception as e:   # the driver swallows watcher exceptions: keep them visible
+                    events.append(("harness-exception", repr(e)))
+            return w
+
         for i, m in enumerate(case["msgs"]):
-            conn._requests[m["stream"]] = (make_cb(i), decoder, ("meta", i))
+            if "event" not in m:
+                conn._requests[m["stream"]] = (make_cb(i), decoder, ("meta", i))
+        for etype in ("STATUS_CHANGE", "TOPOLOGY_CHANGE", "SCHEMA_CHANGE"):
+            conn._push_watchers[etype].add(make_watcher(etype))
         # after a checksum failure the (defunct) connection still walks through the rest of the
         # current read in header-sized steps, hence the extra term for corrupted streams; a loop
         # that does not terminate exceeds any such budget
@@ -328,8 +362,15 @@ def interpret_feed(case, ctx):
             ctx.label("obs:complete-message-deferred-to-a-later-read")
 
     sent = []
+    exp_events = []
     for m, raw in zip(case["msgs"], frames):
-        sent.append((case["version"], m["flags"], m["stream"], m["op"], raw[9:]))
+        if "event" in m:
+            sent.append((case["version"], 0, -1, K.OP_EVENT, raw[9:]))
+            _, etype, exp = K.event_body(m["event"], case["version"])
+            exp_events.append((etype, K.norm_event(exp)))
+        else:
+            sent.append((case["version"], m["flags"], m["stream"], m["op"], raw[9:]))
+    data_idx = [i for i, m in enumerate(case["msgs"]) if "event" not in m]
 
     def key(sub, *more):
         # any failure on a case whose cut list reaches one of the two recorded read-path defects
@@ -352,9 +393,11 @@ def interpret_feed(case, ctx):
                      "messages entering process_msg differ from the messages sent at index %d (%d seen, %d sent, %d "
                      "segments, %d cuts, defunct=%r)" % (at, len(seen), len(sent), len(layout), len(cuts), conn.is_defunct))
         else:
-            exp_handled = [(i, s[0], s[2], s[1], s[3], s[4], ("meta", i)) for i, s in enumerate(sent)]
+            exp_handled = [(i, sent[i][0], sent[i][2], sent[i][1], sent[i][3], sent[i][4], ("meta", i)) for i in data_idx]
             ctx.check(handled == exp_handled, key("C06.handlers", cmode),
                       "handlers received %d deliveries, expected %d in order" % (len(handled), len(exp_handled)))
+            ctx.check(events == exp_events, key("C06.watchers", cmode),
+                      "watchers received %d events, expected %d in order" % (len(events), len(exp_events)))
             if not (conn.is_defunct or conn.is_closed):
                 rest_io = conn._io_buffer.io_buffer.getvalue()
                 rest_cql = conn._io_buffer.cql_frame_buffer.getvalue()
@@ -372,10 +415,14 @@ def interpret_feed(case, ctx):
             ctx.fail(key("C06.corruption", "undetected", region, cmode),
                      "bit %d (%s of segment %d) flipped; all %d bytes fed; connection not defunct (closed=%r, %d of %d "
                      "messages seen)" % (bit, region, flip_seg, total, conn.is_closed, len(seen), len(sent)))
-        # "Delivered" = handed to process_msg while the connection is alive, and what handlers
-        # receive.  Once the checksum failure has defuncted the connection every handler has been
-        # errored; frames of *later* segments of the same read that the dead connection still walks
-        # through reach no request handler -- recorded as an observation, not judged.
+        # Once the checksum failure has defuncted the connection nothing more may be handed to
+        # process_msg, a handler or a watcher -- not even frames of later, intact segments that
+        # arrived in the same read (they may be spliced around the corrupted piece).
+        if len(seen_live) != sum(seen_live) or post_defunct:
+            ctx.fail(key("C06.corruption", "processed-after-defunct", region, cmode),
+                     "bit %d (%s of segment %d) flipped; after the connection became defunct %d more message(s) were "
+                     "handed to process_msg%s" % (bit, region, flip_seg, len(seen_live) - sum(seen_live),
+                                                  (" and delivered: " + ", ".join(post_defunct[:3])) if post_defunct else ""))
         live = [m for m, ok in zip(seen, seen_live) if ok]
         bad = next((i for i in range(len(live)) if i >= len(sent) or live[i] != sent[i]), None)
         if bad is not None:
@@ -387,15 +434,15 @@ def interpret_feed(case, ctx):
             limit = len([i for i in range(len(sent)) if msg_end[i] <= layout[flip_seg]["start"]])
             ctx.check(len(live) <= limit, key("C06.corruption", "delivered-from-corrupt-segment", region, cmode),
                       "%d messages seen but only %d lie wholly before the corrupted segment" % (len(live), limit))
-        if len(live) < len(seen):
-            ctx.label("obs:frames-processed-after-checksum-failure")
         got = [h for h in handled if h[1] != "error"]
         ok_handled = all(h[0] < len(sent) and h[1:6] == (
             sent[h[0]][0], sent[h[0]][2], sent[h[0]][1], sent[h[0]][3], sent[h[0]][4]) for h in got)
         ctx.check(ok_handled, key("C06.corruption", "handler-got-altered", region, cmode),
                   "a handler received a response that differs from the message sent on its stream")
-        ctx.check([h[0] for h in got] == list(range(len(got))), key("C06.corruption", "handler-order", region, cmode),
+        ctx.check([h[0] for h in got] == data_idx[:len(got)], key("C06.corruption", "handler-order", region, cmode),
                   "handlers that received a response: %r -- not a prefix of the sent list" % ([h[0] for h in got],))
+        ctx.check(events == exp_events[:len(events)], key("C06.corruption", "watcher-got-altered", region, cmode),
+                  "watchers received %r -- not a prefix of the events sent" % (events[:3],))
         ctx.label("flip:" + region, "flip-error:" + type(conn.last_error).__name__)
 
     # ---- classification
@@ -407,6 +454,12 @@ def interpret_feed(case, ctx):
         ctx.label("multi-segment-message")
     if any(len(s["messages"]) > 1 for s in layout):
         ctx.label("packed-segment")
+    if exp_events:
+        ctx.label("has-event")
+    if flip is not None and flip_seg < len(layout) - 1:
+        nxt = [c for c in cuts if c >= layout[flip_seg]["end"]]
+        if layout[flip_seg + 1]["end"] <= (nxt[0] if nxt else total):
+            ctx.label("intact-segment-behind-corrupt-one-in-same-read")
     if compression and any(s["compressed"] for s in layout):
         ctx.label("has-compressed-segment")
     if plain_under_comp:
